@@ -465,8 +465,9 @@ class C2Profile(ConfigBlock):
             elif setting == BeaconSetting.SETTING_JITTER:
                 profile.set_option("jitter", value)
             elif setting == BeaconSetting.SETTING_DOMAINS:
-                uris = ", ".join(config.uris)
-                http_get.set_option("uri", uris)
+                if config.uris:
+                    uris = ", ".join(config.uris)
+                    http_get.set_option("uri", uris)
             elif setting == BeaconSetting.SETTING_SPAWNTO:
                 # profile.set_option("spawnto", value)
                 # deprecated
